@@ -646,6 +646,64 @@ fn timed_check(property: &str, quick: bool) -> Check {
             });
         }
     }
+    // ---- N: a NEW leader whose state machine lags behind a write the OLD leader acknowledged.
+    //         Leader 1 commits, applies and acknowledges put(a, kept); node 2 has the entry (and
+    //         the commit index) but its state machine is gated, so nothing is applied there.
+    //         Node 1 crashes, node 2 wins the next election and commits its no-op through node 3.
+    //         A linearizable read on node 2 must wait for the state machine, whatever
+    //         acknowledgements arrive meanwhile.
+    if property != "C12" {
+        let mut on = opts.clone();
+        on.gated_sm = vec![2];
+        if let Some(p) = build_prefix(&on, |s| {
+            let Some(l) = s.run_until_leader() else { return false };
+            if l != 1 {
+                return false;
+            }
+            s.drain_all();
+            s.ev(Event::ClientWrite(1, put("a", "kept")));
+            s.drain_all();
+            // one more heartbeat round so that the followers learn the commit index
+            s.ev(Event::Tick);
+            s.drain_all();
+            s.ev(Event::Crash(1, CrashMode::Process));
+            for _ in 0..40 {
+                if let Some(p) = s.next_vote_peer() {
+                    s.ev(Event::Vote(p, VoteAns::Deliver));
+                    continue;
+                }
+                if s.view(2).map(|v| v.role == crate::simkit::cluster::RoleKind::Leader).unwrap_or(false) {
+                    break;
+                }
+                if s.view(3).map(|v| v.role == crate::simkit::cluster::RoleKind::Leader).unwrap_or(false) {
+                    return false;
+                }
+                s.ev(Event::Tick);
+            }
+            if !s.view(2).map(|v| v.role == crate::simkit::cluster::RoleKind::Leader).unwrap_or(false) {
+                return false;
+            }
+            // the no-op reaches node 3 and its acknowledgement commits it
+            s.drain(|l, _| l.from == 2 && l.to == 3);
+            let v = s.view(2).unwrap();
+            v.commit >= 3 && v.applied < 2
+        }) {
+            let mut m = menu.clone();
+            m.max_ticks = if quick { 3 } else { 5 };
+            m.max_writes = 0;
+            m.crashes = vec![];
+            m.max_crashes = 0;
+            m.apply_release = true;
+            runs.insert(0, RunSpec {
+                name: "3v-timed-new-leader-state-machine-lags-behind-acknowledged-write".into(),
+                opts: on,
+                menu: m,
+                prefix: p,
+                max_depth: if quick { 6 } else { 9 },
+                max_devs: if quick { 2 } else { 3 },
+            });
+        }
+    }
     // ---- R (C10): an acknowledged write, then a graceful stop of the WHOLE cluster in every
     //         order, restart, a new election; a linearizable read must return the value
     if property == "C10" {
@@ -726,10 +784,13 @@ fn liveness_check(property: &str, quick: bool) -> Check {
             s.drain_all();
             true
         }) {
+            // (the menu's counters include the prefix, whose election needed ticks of its own)
+            let mut m = menu.clone();
+            m.max_ticks = p.iter().filter(|e| matches!(e, Event::Tick)).count() + if quick { 1 } else { 4 };
             runs.push(RunSpec {
                 name: "3v-timed-requests-then-stepdown-fatal-or-lost-quorum".into(),
                 opts: opts.clone(),
-                menu: menu.clone(),
+                menu: m,
                 prefix: p,
                 max_depth: if quick { 7 } else { 10 },
                 max_devs: if quick { 2 } else { 3 },
@@ -743,6 +804,44 @@ fn liveness_check(property: &str, quick: bool) -> Check {
                 menu: menu.clone(),
                 prefix: p,
                 max_depth: if quick { 6 } else { 9 },
+                max_devs: if quick { 2 } else { 3 },
+            });
+        }
+        // a leader that has lost both followers for good and whose lease has run out: nothing
+        // commits any more, every linearizable read parks behind the same read index, and each
+        // must still be answered (DeadlineExceeded) by its OWN deadline
+        if let Some(p) = build_prefix(&opts, |s| {
+            let Some(l) = s.run_until_leader() else { return false };
+            if l != 1 {
+                return false;
+            }
+            s.drain_all();
+            s.ev(Event::Crash(2, CrashMode::Process));
+            s.ev(Event::Crash(3, CrashMode::Process));
+            for _ in 0..6 {
+                if s.view(1).map(|v| v.lease_left == 0).unwrap_or(false) {
+                    return true;
+                }
+                s.ev(Event::Tick);
+            }
+            false
+        }) {
+            let mut m = menu.clone();
+            m.reads = vec![("a".into(), RPolicy::Linearizable)];
+            m.max_reads = 3;
+            // the menu's counters include the prefix: allow 4 (6) ticks beyond it
+            m.max_ticks = p.iter().filter(|e| matches!(e, Event::Tick)).count() + if quick { 4 } else { 6 };
+            m.max_writes = 1;
+            m.mixed = vec![];
+            m.crashes = vec![];
+            m.max_crashes = 0;
+            m.fatal_sm = false;
+            runs.push(RunSpec {
+                name: "3v-timed-leader-lost-both-followers-lease-expired".into(),
+                opts: opts.clone(),
+                menu: m,
+                prefix: p,
+                max_depth: if quick { 7 } else { 10 },
                 max_devs: if quick { 2 } else { 3 },
             });
         }
